@@ -42,9 +42,12 @@ type NativeOutcome struct {
 
 // ValuesOf renders inputs for the native side.
 func ValuesOf(in []Input) []string {
-	out := make([]string, len(in))
-	for i, x := range in {
-		out[i] = strconv.FormatUint(x.Val, 10)
+	var out []string
+	for _, x := range in {
+		if x.Kind == "choice" && (x.Name == "sched" || strings.HasPrefix(x.Name, "sched@") || x.Name == "select" || strings.HasPrefix(x.Name, "select@")) {
+			continue // scheduler / select decisions of the executor: not harness inputs (the native scheduler searches schedules itself)
+		}
+		out = append(out, strconv.FormatUint(x.Val, 10))
 	}
 	return out
 }
